@@ -157,6 +157,9 @@ func c08ScannerLoops(r *an.Run) {
 							k, isc := an.ConstInt(add.Y)
 							good = isc && k > 0 || nonNegativeCount(add.Y)
 						}
+						if !good {
+							good = offsetJumpIsForward(f, st, spec)
+						}
 						r.Check(good, short(f)+"|offset-monotone", st.Pos(), "the read offset only moves forward")
 					}
 				}
@@ -207,6 +210,94 @@ func nonNegativeCount(v ssa.Value) bool {
 	case *ssa.Extract:
 		c, ok := x.Tuple.(*ssa.Call)
 		return ok && x.Index == 0 && an.IsCallTo(c, "bufio.ScanLines", "bufio.ScanWords", "bufio.ScanBytes", "bufio.ScanRunes")
+	}
+	return false
+}
+
+// offsetJumpIsForward: the store moves the read offset forward although it is
+// not offset+constant: (a) offset + i where i is the result of a search in
+// content[offset:] (bytes.IndexByte and friends) and the store is behind the
+// i >= 0 edge; (b) len(content), behind an edge on which offset < len(content).
+func offsetJumpIsForward(f *ssa.Function, st *ssa.Store, spec *an.ScanSpec) bool {
+	isOff := func(v ssa.Value) bool {
+		u, ok := v.(*ssa.UnOp)
+		return ok && u.Op == token.MUL && strings.HasSuffix(an.Path(u.X), spec.OffsetSuffix)
+	}
+	isLen := func(v ssa.Value) bool {
+		c, ok := v.(*ssa.Call)
+		return ok && an.IsCallTo(c, "builtin:len") && strings.HasSuffix(an.Path(c.Call.Args[0]), spec.ContentSuffix)
+	}
+	// edges on which cond(x, y) holds, for the comparisons found in f
+	edgesWhere := func(holds func(op token.Token, x, y ssa.Value) (onTrue, onFalse bool)) []an.CtrlEdge {
+		var out []an.CtrlEdge
+		for _, b := range f.Blocks {
+			iff, ok := b.Instrs[len(b.Instrs)-1].(*ssa.If)
+			if !ok {
+				continue
+			}
+			cond, pos := an.StripNot(iff.Cond)
+			cmp, ok := cond.(*ssa.BinOp)
+			if !ok {
+				continue
+			}
+			t, fl := holds(cmp.Op, cmp.X, cmp.Y)
+			if !pos {
+				t, fl = fl, t
+			}
+			if t {
+				out = append(out, an.CtrlEdge{Block: b, Succ: 0})
+			}
+			if fl {
+				out = append(out, an.CtrlEdge{Block: b, Succ: 1})
+			}
+		}
+		return out
+	}
+	if add, ok := st.Val.(*ssa.BinOp); ok && add.Op == token.ADD && isOff(add.X) {
+		if c, ok := add.Y.(*ssa.Call); ok && an.IsCallTo(c, "bytes.IndexByte", "bytes.Index", "bytes.IndexAny", "bytes.IndexFunc", "bytes.IndexRune") {
+			// searched from the offset on
+			if sl, ok := c.Call.Args[0].(*ssa.Slice); !ok || !isOff(sl.Low) || sl.High != nil {
+				return false
+			}
+			edges := edgesWhere(func(op token.Token, x, y ssa.Value) (bool, bool) {
+				k, isc := an.ConstInt(y)
+				if x != ssa.Value(c) || !isc {
+					return false, false
+				}
+				switch {
+				case op == token.GEQ && k == 0, op == token.GTR && k == -1:
+					return true, false
+				case op == token.LSS && k == 0, op == token.LEQ && k == -1, op == token.EQL && k == -1:
+					return false, true
+				case op == token.NEQ && k == -1:
+					return true, false
+				}
+				return false, false
+			})
+			return len(edges) > 0 && unreachableWithout(st.Block(), edges)
+		}
+	}
+	if isLen(st.Val) {
+		edges := edgesWhere(func(op token.Token, x, y ssa.Value) (bool, bool) {
+			switch {
+			case isOff(x) && isLen(y):
+				switch op {
+				case token.LSS, token.LEQ:
+					return true, false
+				case token.GEQ, token.GTR:
+					return false, true
+				}
+			case isLen(x) && isOff(y):
+				switch op {
+				case token.GTR, token.GEQ:
+					return true, false
+				case token.LSS, token.LEQ:
+					return false, true
+				}
+			}
+			return false, false
+		})
+		return len(edges) > 0 && unreachableWithout(st.Block(), edges)
 	}
 	return false
 }
@@ -311,6 +402,35 @@ func c08ReflectSet(r *an.Run) {
 			if why, ok := setSafeByConstruction[short(f)]; ok {
 				r.Pass(key+"|by-construction", s.Pos(), "audited: %s", why)
 				continue
+			}
+			// the "new value of type t holding x" tail of several audited sites factored into a private helper:
+			// destination allocated in the helper from its type parameter, source its value parameter, and every
+			// caller is an audited site (the invariant is the caller's)
+			if callers := r.P.CallersOf(f); len(callers) > 0 && f.Signature.Recv() == nil && !r.P.AddressTaken(f) {
+				dstFresh, srcParam := false, false
+				recvV, srcV := s.Common().Args[0], s.Common().Args[1]
+				for x := range an.BackSlice(recvV, an.SliceOpts{ThroughCalls: true}) {
+					if c, ok := x.(*ssa.Call); ok && an.IsCallTo(c, "reflect.New") && c.Parent() == f {
+						if _, isP := c.Call.Args[0].(*ssa.Parameter); isP {
+							dstFresh = true
+						}
+					}
+				}
+				if _, isP := srcV.(*ssa.Parameter); isP {
+					srcParam = true
+				}
+				allAudited := true
+				var names []string
+				for _, c := range callers {
+					if _, ok := setSafeByConstruction[short(c.Parent())]; !ok {
+						allAudited = false
+					}
+					names = append(names, short(c.Parent()))
+				}
+				if dstFresh && srcParam && allAudited {
+					r.Pass(key+"|by-construction-of-callers", s.Pos(), "the destination is allocated here from the type handed in and the source is the value handed in; every caller is an audited site (%s)", strings.Join(names, ", "))
+					continue
+				}
 			}
 			r.Fail(key, s.Pos(), "unguarded reflect.Value.Set in %s: the source is not checked to be assignable to the destination and the site is not in the audited type-safe-by-construction table — a value produced by a nested replacer (a metavariable's captured code, a run recorded by '...') of another type panics here", short(f))
 		}
